@@ -2,6 +2,7 @@ package props
 
 import (
 	"context"
+	"encoding/json"
 	"fmt"
 	"sync/atomic"
 	"testing"
@@ -12,6 +13,7 @@ import (
 	"github.com/nuts-foundation/nuts-node/crypto/hash"
 	"github.com/nuts-foundation/nuts-node/network"
 	"github.com/nuts-foundation/nuts-node/network/dag"
+	"github.com/nuts-foundation/nuts-node/vdr/didnuts"
 	"github.com/nuts-foundation/nuts-node/vdr/didsubject"
 	"verifsim/seams"
 	"verifsim/simkit"
@@ -87,6 +89,73 @@ func c06Body(s *simkit.Sim, rc *simkit.RunCtx) {
 		nodeKID = docs[0].VerificationMethod[0].ID.String()
 		didTxs++
 	}
+	// a did:nuts document of another member (the workload signs as that member) with a key that is removed later: a
+	// transaction signed with the removed key that refers to the removing update only is not signed by a key its key id
+	// denotes as of the referenced transactions
+	var removedKey *world.CTx
+	if s.D.Decide("did-history", 3) != 0 {
+		k1, k2 := newC9Key(), newC9Key()
+		kid1, _ := didnuts.DIDKIDNamingFunc(k1.priv.Public())
+		id := did.MustParseDIDURL(kid1).DID
+		vm1, vm2 := vmFor(id, k1), vmFor(id, k2)
+		kid2 := vm2.ID.String()
+		sign := func(prevs []*world.CTx, payload []byte, ptype string, key *c9Key, kid string) *world.CTx {
+			var refs []hash.SHA256Hash
+			var lc uint32
+			for _, p := range prevs {
+				refs = append(refs, p.Ref)
+				if p.LC+1 > lc {
+					lc = p.LC + 1
+				}
+			}
+			t, err := h.corpus.SignWith(refs, lc, payload, ptype, key.priv, kid)
+			if err != nil {
+				s.Fail("C06.harness", "did-history", "sign: %v", err)
+				return nil
+			}
+			return t
+		}
+		add := func(t *world.CTx, what string) bool {
+			if t == nil {
+				return false
+			}
+			if err := n.State().Add(context.Background(), t.Tx, t.Payload); err != nil {
+				s.Fail("C06.harness", "did-history", "%s rejected: %v", what, err)
+				return false
+			}
+			return true
+		}
+		doc := didnuts.CreateDocument()
+		doc.ID = id
+		doc.AddCapabilityInvocation(vm1)
+		doc.AddAssertionMethod(vm1)
+		doc.AddAssertionMethod(vm2)
+		p1, _ := json.Marshal(doc)
+		tc := sign([]*world.CTx{root}, p1, didnuts.DIDDocumentType, k1, "")
+		if !add(tc, "creation of a DID document with two keys") {
+			return
+		}
+		// valid: signed with the second key while the referenced version lists it
+		v1 := sign([]*world.CTx{tc}, []byte("signed-by-second-key"), "foo/bar", k2, kid2)
+		if !add(v1, "transaction signed with the second key of the document it refers to") {
+			return
+		}
+		doc2 := didnuts.CreateDocument()
+		doc2.ID = id
+		doc2.AddCapabilityInvocation(vm1)
+		doc2.AddAssertionMethod(vm1)
+		p2, _ := json.Marshal(doc2)
+		tu := sign([]*world.CTx{v1, tc}, p2, didnuts.DIDDocumentType, k1, kid1)
+		if !add(tu, "update that removes the second key") {
+			return
+		}
+		if m := sign([]*world.CTx{tu}, []byte("signed-by-removed-key"), "foo/bar", k2, kid2); m != nil {
+			m.Valid = false
+			m.Defect = "kid-removed-key"
+			removedKey = m
+		}
+		didTxs += 3
+	}
 	base := len(h.corpus.Valid)
 	// the corpus continues from what the node already has (root + DID creation)
 	stored0, _ := h.stored()
@@ -134,6 +203,10 @@ func c06Body(s *simkit.Sim, rc *simkit.RunCtx) {
 				sample.Mutants["lc-of-lower-prev"]++
 			}
 		}
+	}
+	if removedKey != nil {
+		mutants = append(mutants, removedKey)
+		sample.Mutants["kid-removed-key"]++
 	}
 	if nodeKID != "" {
 		// signed by key id with a key that is not the one the DID document lists
